@@ -31,6 +31,10 @@ def run(tier, seed, replay):
     stats = collections.Counter()
     for k in range(n):
         top = foreign.rand_desc(rng)
+        if k == 7:
+            # the smallest legal image: virtual size 0 (no L1 entry at all); it must open, and there is nothing to read
+            import qimg
+            top = qimg.ImageDesc(version=rng.choice([2, 3]), cluster_bits=rng.choice([9, 12, 16]), refcount_order=4, size=0, clusters={})
         descs = [top]
         if top.backing_file:
             descs.append(foreign.backing_desc(rng, top))
